@@ -470,3 +470,46 @@ def assign_safety(facts):
         else:
             out.append(ob("special.assign-safety", k, fn["pat"], "discharged", "source is read before any owned member is released (or self-assignment is guarded)", fn["qname"]))
     return out
+
+
+def raw_slot_flag(facts):
+    """var_opt_sketch: `filled_data_ == true` means every slot of data_ (including the gap slot h_) holds a live object, and the
+    destructor / reset destroy accordingly. A function that gives data_ fresh raw memory (allocate) constructs at most the H and
+    R regions and never the gap, so filled_data_ must be the constant false when it returns."""
+    from astu import functions_by, stmts_of, is_this_field, txt
+    fns = functions_by(facts, ["sampling"])
+    out = []
+    for pat, fn in sorted(fns.items()):
+        if fn.get("rect") != "datasketches::var_opt_sketch":
+            continue
+        fresh = []
+
+        def v(n):
+            if n.get("k") == "Assign" and n.get("op") == "=" and is_this_field(n["l"], ("data_",)):
+                inner = []
+                walk(n["r"], lambda x: inner.append(x) if x.get("k") == "Call" and x.get("cname") == "allocate" else None)
+                if inner:
+                    fresh.append(n)
+            if n.get("k") == "Call" and n.get("cname") == "allocate_data_arrays":
+                fresh.append(n)
+        walk(fn["body"], v)
+        if not fresh or fn["name"] in ("grow_data_arrays",):
+            continue  # grow moves the live items and clears the flag itself under its own condition
+        last = None
+        for i in fn.get("inits", []):
+            if i.get("written") and i.get("field") == "filled_data_":
+                last = (i["e"], i["e"].get("loc", fn["pat"]))
+        for s in stmts_of(fn["body"]):
+            if s.get("k") == "Expr":
+                e = strip(s["e"])
+                if e.get("k") == "Assign" and e.get("op") == "=" and is_this_field(e["l"], ("filled_data_",)):
+                    last = (e["r"], e["loc"])
+                if e.get("k") == "Call" and e.get("cname") == "allocate_data_arrays":
+                    last = ({"k": "Bool", "v": False, "via": "allocate_data_arrays"}, e["loc"])  # that helper is itself an instance of this rule
+        k = "var_opt_sketch::%s:raw-gap-flag" % (fn["name"] + ("(%s)" % (fn.get("special") or len(fn["params"])) if fn["name"] == "var_opt_sketch" else ""))
+        val = strip_all(last[0]) if last else None
+        if val is not None and (val.get("k") == "Bool" and val.get("v") in (False, 0) or val.get("v") == 0 and val.get("k") in ("Bool", "Int", "Cast")):
+            out.append(ob("lifecycle.raw-slot-flag", k, last[1], "discharged", "data_ receives raw memory here and filled_data_ is false on return", fn["qname"]))
+        else:
+            out.append(ob("lifecycle.raw-slot-flag", k, (last[1] if last else fn["pat"]), "violated", "data_ receives freshly allocated raw memory in this function (gap slot never constructed) but filled_data_ is `%s` on return: the destructor / reset / next update treat the raw gap slot as a live object (destroying or assigning to an unconstructed item)" % (txt(val) if val is not None else "unset"), fn["qname"]))
+    return out
